@@ -80,12 +80,20 @@ pub(crate) struct KInfo<T: NumberLike> {
 impl<T: NumberLike> Prefix<T> {
   pub(crate) fn k_info(&self) -> KInfo<T> {
     let diff = (self.upper.to_unsigned() - self.lower.to_unsigned()) / self.gcd;
-    let k = (diff.to_f64() + 1.0).log2().floor() as usize;
-    let only_k_bits_upper = if k == T::Unsigned::BITS {
-      T::Unsigned::MAX
-    } else {
-      (T::Unsigned::ONE << k) - T::Unsigned::ONE
-    };
+    // k = floor(log2(diff + 1)), i.e. the largest k with 2^k - 1 <= diff.
+    // This is computed in exact integer arithmetic; f64 log2 rounds up for
+    // wide types when diff + 1 is just below a power of 2.
+    let mut k = 0;
+    let mut only_k_bits_upper = T::Unsigned::ZERO; // 2^k - 1
+    while k < T::Unsigned::BITS {
+      let mut next = only_k_bits_upper << 1;
+      next |= T::Unsigned::ONE;
+      if next > diff {
+        break;
+      }
+      only_k_bits_upper = next;
+      k += 1;
+    }
     let only_k_bits_lower = diff - only_k_bits_upper;
 
     KInfo {
